@@ -36,7 +36,7 @@ def fetch_wrapper(ctx, callable_, fetch_on="other", loops=None):
     return f, owner, px.explore(f, setup)
 
 
-@rule("R20.1", ["C20", "C04", "C11"], "T-FUN", floor=12)
+@rule("R20.1", ["C20", "C04", "C11", "C01", "C09"], "T-FUN", floor=12)
 def r20_1(ctx):
     """Dispatch table of the proxy over {callable, not} x {caller on the owner's loop, on another loop} x {owner
     loop open, closed} x {coroutine function, plain function} x {plain result None, a value}: a non-callable
@@ -294,7 +294,7 @@ def r20_7(ctx):
             ctx.require(not bad, key, f"force_stop with a loop: {bad}", func=f, trace=p.trace(20))
 
 
-@rule("R20.8", ["C20"], "T-FUN", floor=1)
+@rule("R20.8", ["C20", "C09"], "T-FUN", floor=1)
 def r20_8(ctx):
     """EventLoopThread.run_coroutine_threadsafe schedules the coroutine on the *thread's* loop and wraps the
     concurrent future for the *caller's* loop (the one current at the call), returning that wrapped future."""
